@@ -20,6 +20,7 @@ func checkC13(w *World, r *Report) {
 	r.Rule("R13.2", "address check dominates every session-state mutation", 4)
 	r.Rule("R13.3", "a slot is cleared only from its own table", 3)
 	r.Rule("R13.4", "close is identity-checked", 1)
+	r.Rule("R13.5", "session tables cover every identifier the wire format can carry", 2)
 
 	lst := w.Named("internal/streams/dns", "ServerDnsListener")
 	uc := w.Named("internal/streams/dns", "userConnection")
@@ -74,6 +75,40 @@ func checkC13(w *World, r *Report) {
 		}
 		return false
 	}
+	// R13.5: the tables have a slot for every identifier the wire format can carry (2 base-36 characters)
+	if ctor := w.SSAFunc(w.Func("internal/streams/dns", "NewServerDnsListener")); ctor != nil {
+		allInstrs(ctor, func(in ssa.Instruction) {
+			st, ok := in.(*ssa.Store)
+			if !ok {
+				return
+			}
+			fa, ok := st.Addr.(*ssa.FieldAddr)
+			if !ok {
+				return
+			}
+			for _, t := range tables {
+				if fieldVarOf(fa) != t {
+					continue
+				}
+				size := int64(-1)
+				for _, root := range provenance(st.Val, provOpts{}) {
+					switch x := root.(type) {
+					case *ssa.MakeSlice:
+						size, _ = constIntVal(x.Len)
+					case *ssa.Slice:
+						if al, ok := x.X.(*ssa.Alloc); ok {
+							if arr, ok := al.Type().(*types.Pointer).Elem().(*types.Array); ok {
+								size = arr.Len()
+							}
+						}
+					}
+				}
+				r.Check(size >= 36*36, "R13.5", "table:"+t.Name()+"|size", w.Pos(st.Pos()), fmt.Sprintf("%d slots >= 1296 decodable identifiers", size),
+					fmt.Sprintf("the table has %d slots but a request can carry any identifier below 1296: indexing it is out of range", size))
+			}
+		})
+	}
+
 	fns := dnsPkgFuncs(w)
 	validate := w.Method("internal/streams/dns", "ServerDnsListener", "validateAndGetUser")
 	closeConn := w.Method("internal/streams/dns", "ServerDnsListener", "closeConnection")
